@@ -109,6 +109,8 @@ def play(behaviours, seed, sink, twin_every=2, split_fn=None):
         sessions[sid] = s
         if not s.construct(es, vs):
             continue
+        if name.endswith(('reg', 'regc')):
+            s.g._g2o_params = graphs.registry_for(es)
         nopt = 0
         # Interleaving dimension: between the recorded calls, an UNRELATED graph (other objects, other template) is built, queried and optimised.
         # None of it is recorded: a recorded graph's behaviour must not depend on what happens to other graphs (no class-level / module-level state).
@@ -120,6 +122,8 @@ def play(behaviours, seed, sink, twin_every=2, split_fn=None):
                 s.query(a['q'], a['target'])
             elif a['op'] == 'SetFixed':
                 s.set_fixed(a['idx'], a['flag'])
+            elif a['op'] == 'Reload':
+                s.reload()
             elif a['op'] == 'OptCall':
                 nopt += 1
                 split = split_fn(a['maxIter'], nopt, sid) if split_fn else None
